@@ -25,6 +25,11 @@ bool CPPType::is_convertible_to(const CPPType *other) const { return g_ret_conv;
 
 //@extract src/cppparser/cppFunctionType.cxx CPPFunctionType::match_virtual_override
 //@extract src/cppparser/cppParameterList.cxx CPPParameterList::is_equivalent rename=__body
+static bool vin_is_function_decl;
+static CPPFunctionType *vu_as_function_type(CPPType *t) { return vin_is_function_decl ? (CPPFunctionType *)t : (CPPFunctionType *)0; }
+#include "cppInstance.h"
+#include "cppExpression.h"
+//@extract src/cppparser/cppInstance.cxx CPPInstance::set_initializer "subst1=@_type->as_function_type\(\)@vu_as_function_type(_type)@"
 bool CPPParameterList::is_equivalent(const CPPParameterList &other) const { return g_params_equiv; }
 
 void h_match_virtual_override() {
@@ -63,5 +68,25 @@ void h_parameter_lists_equivalent() {
   bool want = a->_includes_ellipsis == b->_includes_ellipsis && na == nb;
   for (int i = 0; i < 2; i++) if ((size_t)i < na && (size_t)i < nb && !vin_param_equiv[i]) want = false;
   OBL(r == want, "C10.parameter_lists: two parameter lists are equivalent exactly if both or neither end in an ellipsis, they have the same length and the parameter types are pairwise equivalent (f(const char *, ...) does not override f(const char *))");
+  VU_REACHED();
+}
+
+// ---- `= 0`, `= default`, `= delete` behind a function declaration ([class.abstract], [dcl.fct.def]): the pure-specifier
+// makes the function pure virtual whether or not the keyword virtual is repeated on an overriding declaration
+void h_set_initializer() {
+  CPPInstance *inst = VU_NEW(CPPInstance);
+  inst->_type = (CPPType *)vu_alloc(8); vin_is_function_decl = nondet_bool();
+  int vin_sc = nondet_int(); inst->_storage_class = vin_sc; inst->_initializer = (CPPExpression *)vu_alloc(8);
+  CPPExpression *init = nondet_bool() ? (CPPExpression *)0 : VU_NEW(CPPExpression);
+  int vin_kind = nondet_int(); if (init) init->_type = (CPPExpression::Type)vin_kind;
+  inst->set_initializer(init);
+  int special = CPPInstance::SC_pure_virtual | CPPInstance::SC_defaulted | CPPInstance::SC_deleted;
+  if (vin_is_function_decl) {
+    int want = 0;
+    if (init && vin_kind == CPPExpression::T_integer) want = CPPInstance::SC_pure_virtual;
+    else if (init && vin_kind == CPPExpression::T_default) want = CPPInstance::SC_defaulted;
+    else if (init && vin_kind == CPPExpression::T_delete) want = CPPInstance::SC_deleted;
+    OBL((inst->_storage_class & special) == want && (inst->_storage_class & ~special) == (vin_sc & ~special) && inst->_initializer == 0, "C10.set_initializer: `= 0` makes a function declaration pure virtual (with or without the keyword virtual: void f() override = 0;), `= default` / `= delete` mark it so; nothing else changes");
+  } else OBL(inst->_initializer == init && inst->_storage_class == vin_sc, "C10.set_initializer: a variable keeps its initializer");
   VU_REACHED();
 }
